@@ -1,0 +1,16 @@
+//go:build verif
+
+package table
+
+// VerifAfterLoad, when set by the verification harness, is called by a
+// dispatcher right after it has loaded a configuration snapshot (where = the
+// dispatching function for the table, the route key for routes).  It lets the
+// harness park a dispatcher that already holds the previous snapshot while an
+// admin operation runs, i.e. own the schedule.
+var VerifAfterLoad func(where string)
+
+func verifAfterLoad(where string) {
+	if f := VerifAfterLoad; f != nil {
+		f(where)
+	}
+}
